@@ -405,6 +405,11 @@ func roleOf(fn *FuncNode, e ast.Expr) string {
 	if o == nil {
 		return ""
 	}
+	return roleOfObj(fn, o)
+}
+
+// roleOfObj: the role of a record variable by its definition in fn.
+func roleOfObj(fn *FuncNode, o types.Object) string {
 	role := ""
 	// x, ok := snap.Nodes[k]   /   x := snap.Nodes[k]
 	inspectNoLit(fn.Body, func(n ast.Node) bool {
@@ -539,73 +544,159 @@ func checkMergeDirection(r *Run, p *Prog) {
 		{gossipPkg, "Gossip", "sync", "Digests", []string{"remote>local", "missing"}, "gossip.sync requests a record from the initiator"},
 		{gossipPkg, "Gossip", "ack", "Nodes", []string{"local>remote"}, "gossip.ack returns a record to the peer"},
 	}
+	// The decision is read as a truth table (E17) over four facts: the local record is
+	// more advanced than the received one, the received one is more advanced than the
+	// local one, the member is present in the local snapshot, the member is present in
+	// the received message. A store may be passed only under an assignment in which one
+	// of the facts that license it holds - however the test is written down (one
+	// condition, named booleans, De Morgan forms, early continue, a predicate).
+	atoms := []string{"local>remote", "remote>local", "has:local", "has:remote"}
 	for _, sp := range specs {
-		fn := p.Func(sp.pkg, sp.recv, sp.name)
-		if fn == nil {
+		top := p.Func(sp.pkg, sp.recv, sp.name)
+		if top == nil {
 			r.Undecide("C12.R2: %s.%s not found", sp.recv, sp.name)
 			continue
 		}
-		c := p.CFG(fn)
-		stores := c.NodesWhere(func(n ast.Node) bool {
-			as, ok := n.(*ast.AssignStmt)
-			if !ok || len(as.Lhs) != 1 {
-				return false
+		// role of the record an expression is part of: "local" (from a CopyState snapshot),
+		// "remote" (from a parameter)
+		role := func(ev *ttEval, st *ttState, f *FuncNode, e ast.Expr) string {
+			for i := 0; i < 10; i++ {
+				switch x := ast.Unparen(e).(type) {
+				case *ast.SelectorExpr:
+					e = x.X
+				case *ast.IndexExpr:
+					e = x.X
+				case *ast.CallExpr:
+					if g := CalleeFunc(f, x); g != nil && g.Name() == "CopyState" {
+						return "local"
+					}
+					return ""
+				case *ast.Ident:
+					o := objOf(f, x)
+					if o == nil {
+						return ""
+					}
+					if b, ok := st.alias[o]; ok {
+						f, e = b.fn, b.e
+						continue
+					}
+					if f != top {
+						return ""
+					}
+					if isParam(top, o) {
+						return "remote"
+					}
+					if definedByCopyState(top, o) {
+						return "local"
+					}
+					return roleOfObj(top, o)
+				default:
+					return ""
+				}
+			}
+			return ""
+		}
+		classify := func(ev *ttEval, st *ttState, f *FuncNode, e ast.Expr) (string, bool, bool) {
+			switch x := ast.Unparen(e).(type) {
+			case *ast.CallExpr:
+				g := CalleeFunc(f, x)
+				sel, ok := ast.Unparen(x.Fun).(*ast.SelectorExpr)
+				if g == nil || !ok || len(x.Args) != 1 || (g.Name() != "OlderThan" && g.Name() != "YoungerThan") {
+					return "", false, false
+				}
+				isHB := func(y ast.Expr) bool {
+					_, y2 := ev.resolve(st, f, y)
+					s2, ok := ast.Unparen(y2).(*ast.SelectorExpr)
+					return ok && s2.Sel.Name == "Heartbeat"
+				}
+				if !isHB(sel.X) || !isHB(x.Args[0]) {
+					return "", false, false
+				}
+				f1, x1 := ev.resolve(st, f, sel.X)
+				f2, x2 := ev.resolve(st, f, x.Args[0])
+				ra, rb := role(ev, st, f1, x1), role(ev, st, f2, x2)
+				if ra == "" || rb == "" || ra == rb {
+					return "", false, false
+				}
+				adv, other := ra, rb // receiver.OlderThan(arg): the receiver is more advanced
+				if g.Name() == "YoungerThan" {
+					adv, other = rb, ra
+				}
+				return adv + ">" + other, false, true
+			case *ast.IndexExpr:
+				if tv, ok := f.Pkg.TypesInfo.Types[x.X]; ok {
+					if _, isMap := tv.Type.Underlying().(*types.Map); !isMap {
+						return "", false, false
+					}
+				}
+				if ro := role(ev, st, f, x.X); ro != "" {
+					return "has:" + ro, false, true
+				}
+			}
+			return "", false, false
+		}
+		event := func(f *FuncNode, s ast.Stmt) string {
+			as, ok := s.(*ast.AssignStmt)
+			if !ok || len(as.Lhs) != 1 || f != top {
+				return ""
 			}
 			ix, ok := ast.Unparen(as.Lhs[0]).(*ast.IndexExpr)
 			if !ok {
-				return false
+				return ""
 			}
-			s, ok := ast.Unparen(ix.X).(*ast.SelectorExpr)
-			return ok && s.Sel.Name == sp.target
-		})
-		if len(stores) == 0 {
-			r.Ob("C12.R2.direction", sp.desc, p.Position(fn.Pos()), false, "no store into ."+sp.target)
+			if s2, ok := ast.Unparen(ix.X).(*ast.SelectorExpr); ok && s2.Sel.Name == sp.target {
+				return "store"
+			}
+			return ""
+		}
+		outcome := func(*FuncNode, *ast.ReturnStmt, []ttVal) string { return "end" }
+		table, bad := ttTableEv(p, top, atoms, classify, outcome, false, event)
+		if bad != "" {
+			r.Undecide("C12.R2.direction: %s.%s could not be evaluated: %s", sp.recv, sp.name, bad)
 			continue
 		}
-		allowed := func(kind string) bool {
+		licensed := func(mask int) bool {
 			for _, a := range sp.allow {
-				if a == kind {
-					return true
+				switch a {
+				case "local>remote":
+					if mask&1 != 0 {
+						return true
+					}
+				case "remote>local":
+					if mask&2 != 0 {
+						return true
+					}
+				case "missing":
+					if mask&4 == 0 {
+						return true
+					}
+				case "missing-remote":
+					if mask&8 == 0 {
+						return true
+					}
 				}
 			}
 			return false
 		}
-		atomOK := func(atom ast.Expr, val bool) bool {
-			if a, b, ok := advancedAtom(fn, atom, val); ok {
-				return allowed(a + ">" + b)
-			}
-			if missingAtom(fn, atom, val) {
-				return allowed("missing") || allowed("missing-remote")
-			}
-			return false
-		}
-		gate := c.EdgesEstablishing(atomOK)
-		// true edge of a disjunction made only of licensing atoms
-		for e := range c.TrueEdgesOfDisjunctionOf(func(a ast.Expr) bool {
-			core, neg := BoolTest(a)
-			return atomOK(core, neg == 0)
-		}) {
-			gate[e] = true
-		}
-		// false edge of a conjunction each conjunct of which is the negation of a licensing
-		// atom (the De Morgan form: "if known && !newer { continue }")
-		for e := range c.FalseEdgesOfConjunctionOf(func(a ast.Expr) bool {
-			core, neg := BoolTest(a)
-			return atomOK(core, neg == 1)
-		}, func(ast.Expr) bool { return true }) {
-			gate[e] = true
-		}
-		q, vis := c.ReachAvoiding([]Point{c.Entry()}, gate, nil)
-		ok := len(gate) > 0
-		var path []string
-		for _, s := range stores {
-			if vis[s] {
-				ok = false
-				path = q.PathTo(s)
+		stores, ok, why := false, true, ""
+		for mask := 0; mask < 1<<len(atoms); mask++ {
+			for o := range table[mask] {
+				if !strings.Contains(o, "+store") {
+					continue
+				}
+				stores = true
+				if !licensed(mask) {
+					ok = false
+					why = fmt.Sprintf("the store is reached with local>remote=%v remote>local=%v known-locally=%v known-remotely=%v", mask&1 != 0, mask&2 != 0, mask&4 != 0, mask&8 != 0)
+				}
 			}
 		}
-		r.ObPath("C12.R2.direction", sp.desc+" only when licensed ("+strings.Join(sp.allow, " or ")+")", p.Position(stores[0].B.Nodes[stores[0].I].Pos()), ok,
-			"an inverted or missing comparison lets older state overwrite newer state (or withholds newer state) when the two sides are ahead on different members", path)
+		if !stores {
+			r.Ob("C12.R2.direction", sp.desc, p.Position(top.Pos()), false, "no store into ."+sp.target)
+			continue
+		}
+		r.Ob("C12.R2.direction", sp.desc+" only when licensed ("+strings.Join(sp.allow, " or ")+")", p.Position(top.Pos()), ok,
+			"an inverted or missing comparison lets older state overwrite newer state (or withholds newer state) when the two sides are ahead on different members: "+why)
 	}
 }
 
@@ -921,8 +1012,19 @@ func checkSyncComplete(r *Run, p *Prog) {
 		return true
 	})
 	isCompare := func(n ast.Node) bool {
-		if _, isAssign := n.(*ast.AssignStmt); isAssign {
-			return false // the lookup itself is not a comparison
+		if as, isAssign := n.(*ast.AssignStmt); isAssign {
+			// the lookup itself is not a comparison; an assignment whose right-hand side
+			// compares (a named boolean) is
+			if len(as.Rhs) == 1 {
+				if _, isIdx := ast.Unparen(as.Rhs[0]).(*ast.IndexExpr); isIdx {
+					return false
+				}
+			}
+			blk := &ast.BlockStmt{}
+			for _, e := range as.Rhs {
+				blk.List = append(blk.List, &ast.ExprStmt{X: e})
+			}
+			n = blk
 		}
 		found := false
 		inspectNoLit(n, func(y ast.Node) bool {
